@@ -30,39 +30,55 @@ pub fn run(ctx: &Ctx) -> ! {
     let mut_cfg = MutationCfg { retarget_epoch_radius: ctx.tier.pick(1, 2), swap_epoch_radius: 1, second_order: true };
     let pool = seam_a_pool(&w, &mut_cfg);
     // seam B works on its own, smaller world (one certificate per epoch)
-    let wb = World::build(&WorldCfg { epochs: ctx.tier.pick(2, 3), per_epoch: 1, with_h3: !quick });
-    let honest_b: Vec<&str> = if quick { vec!["H2"] } else { vec!["H2", "H3"] };
-    let pool_b = seam_b::build_pool(&wb, &honest_b, threads);
-    let bounds: Vec<Bounds> = if quick {
-        vec![Bounds { max_calls: 2, max_devs: 1 }]
+    // quick: 3 epochs, histories of <= 2 calls with <= 1 provider deviation
+    // thorough: 4 epochs, <= 3 calls with <= 1 deviation; and on the 3-epoch pool <= 2 calls with <= 2 deviations
+    let wb_small = World::build(&WorldCfg { epochs: 2, per_epoch: 1, with_h3: false });
+    let wb_large = World::build(&WorldCfg { epochs: 3, per_epoch: 1, with_h3: false });
+    let honest_b: Vec<&str> = vec!["H2"];
+    let pool_b_small = seam_b::build_pool(&wb_small, &honest_b, threads);
+    let pool_b_large = seam_b::build_pool(&wb_large, &honest_b, threads);
+    let plans: Vec<(&World, &seam_b::PoolB, Bounds)> = if quick {
+        vec![(&wb_small, &pool_b_small, Bounds { max_calls: 2, max_devs: 1 })]
     } else {
-        vec![Bounds { max_calls: 3, max_devs: 1 }, Bounds { max_calls: 2, max_devs: 2 }]
+        vec![
+            (&wb_large, &pool_b_large, Bounds { max_calls: 3, max_devs: 1 }),
+            (&wb_small, &pool_b_small, Bounds { max_calls: 2, max_devs: 2 }),
+        ]
     };
     rep.extra(
         "bounds",
         json!({
             "A_epochs_after_genesis": world_cfg.epochs, "A_chains": w.chains.iter().map(|c| format!("{}({} certificates)", c.name, c.certs.len())).collect::<Vec<_>>(),
             "A_pool": pool.members.len(), "A_retarget_epoch_radius": mut_cfg.retarget_epoch_radius,
-            "B_pool": pool_b.members.len(), "B_honest_chains": honest_b,
-            "B_histories": bounds.iter().map(|b| format!("<= {} verify_chain calls, <= {} provider deviations", b.max_calls, b.max_devs)).collect::<Vec<_>>(),
+            "B_honest_chains": honest_b,
+            "B_histories": plans.iter().map(|(_, p, b)| format!("pool of {} certificates: <= {} verify_chain calls, <= {} provider deviations", p.members.len(), b.max_calls, b.max_devs)).collect::<Vec<_>>(),
         }),
     );
 
     if let Some(path) = &ctx.replay {
         let v = mc_core::load_replay(path);
-        replay(ctx, rep, &v, &pool, &w, &pool_b, &wb);
+        let large = v["pool_b"].as_u64() == Some(pool_b_large.members.len() as u64);
+        if large {
+            replay(ctx, rep, &v, &pool, &w, &pool_b_large, &wb_large);
+        } else {
+            replay(ctx, rep, &v, &pool, &w, &pool_b_small, &wb_small);
+        }
     }
 
-    eprintln!("[C03] pools built at {:.1}s (A {} members, B {} members)", ctx.elapsed_s(), pool.members.len(), pool_b.members.len());
+    eprintln!("[C03] pools built at {:.1}s cpu {:.1}s (A {} members, B {}/{} members)", ctx.elapsed_s(), cpu_s(), pool.members.len(), pool_b_small.members.len(), pool_b_large.members.len());
     // ---------------- seam A
     let full_rows: BTreeSet<usize> = (0..pool.members.len())
         .filter(|i| {
             let m = &pool.members[*i];
-            m.base || (!quick && m.origin.mutation.starts_with("~prev:=") && !m.origin.mutation.starts_with("~prev:=("))
+            m.base
+                || (!quick
+                    && (m.origin.chain == "H2" || m.origin.chain == "A")
+                    && m.origin.mutation.starts_with("~prev:=")
+                    && !m.origin.mutation.starts_with("~prev:=("))
         })
         .collect();
     let mut a = seam_a::explore(&pool, &w.genesis_verifier, &full_rows, threads);
-    eprintln!("[C03] seam A pairs done at {:.1}s ({} steps)", ctx.elapsed_s(), a.rep.evaluations);
+    eprintln!("[C03] seam A pairs done at {:.1}s cpu {:.1}s ({} steps)", ctx.elapsed_s(), cpu_s(), a.rep.evaluations);
     seam_a::check_graph(&pool, &mut a);
     // completeness on the honest chains: every real link and genesis accepted
     for ch in w.chains.iter().filter(|c| c.honest) {
@@ -113,26 +129,44 @@ pub fn run(ctx: &Ctx) -> ! {
     rep.extra("A_pool_members_sound_on_their_own", json!(a.facts.iter().filter(|f| f.ok()).count()));
     rep.extra("A_pool_members_with_valid_chain", json!(chain_defect.iter().filter(|d| d.is_none()).count()));
 
-    eprintln!("[C03] seam A done at {:.1}s", ctx.elapsed_s());
+    eprintln!("[C03] seam A done at {:.1}s cpu {:.1}s", ctx.elapsed_s(), cpu_s());
     // ---------------- seam B
     let mut b_states = 0u64;
     let mut b_calls = 0u64;
-    for b in &bounds {
-        let r = seam_b::explore(&pool_b, &wb, b, threads);
-        b_states = b_states.max(r.states);
+    let mut b_found: Vec<(usize, mc_core::Violation)> = vec![];
+    for (pi, (wb, pool_b, b)) in plans.iter().enumerate() {
+        let r = seam_b::explore(pool_b, wb, b, threads);
+        b_states += r.states;
         b_calls += r.calls;
         let mut part = r.rep;
-        let r_found = r.found;
         // keep the per-bound breakdown under distinct names
-        let tag = format!("B[{}calls,{}devs]", b.max_calls, b.max_devs);
+        let tag = format!("B[pool{},{}calls,{}devs]", pool_b.members.len(), b.max_calls, b.max_devs);
         for k in ["B_depths", "B_distinct_cache_states"] {
             if let Some(v) = part.extras.remove(k) {
                 part.extras.insert(format!("{tag}_{k}"), v);
             }
         }
         rep.merge(part);
-        all_found.extend(r_found);
+        for mut v in r.found {
+            v.replay["pool_b"] = json!(pool_b.members.len());
+            // every seam-B violation is re-run from an empty cache through its whole history before it is reported
+            match seam_b::history_from_json(pool_b, &v.replay["history"]) {
+                None => rep.machinery_errors.push(format!("cannot parse own history for {}", v.key)),
+                Some(h) => {
+                    if b_found.iter().filter(|(p, x)| *p == pi && x.key == v.key).count() < 40 {
+                        let (results, _) = seam_b::run_history(pool_b, &wb.genesis_vkey_hex, &h);
+                        if !results.last().is_some_and(|r| r.ok) {
+                            rep.machinery_errors.push(format!("replay divergence: history for {} does not end in Ok when re-run from an empty cache", v.key));
+                        }
+                    }
+                }
+            }
+            b_found.push((pi, v));
+        }
+        eprintln!("[C03] seam B plan {tag} done at {:.1}s cpu {:.1}s", ctx.elapsed_s(), cpu_s());
     }
+    all_found.extend(b_found.into_iter().map(|x| x.1));
+    rep.extra("B_pool_members_with_valid_chain", json!(plans.iter().map(|(_, p, _)| p.chain_defect.iter().filter(|d| d.is_none()).count()).collect::<Vec<_>>()));
     // smallest counterexample of every key first (only the first few per key are written out)
     all_found.sort_by(|x, y| {
         let size = |v: &mc_core::Violation| v.replay.to_string().len();
@@ -142,34 +176,27 @@ pub fn run(ctx: &Ctx) -> ! {
     for v in all_found {
         rep.push_violation(v);
     }
-    eprintln!("[C03] seam B done at {:.1}s", ctx.elapsed_s());
-    rep.extra("B_pool_members_with_valid_chain", json!(pool_b.chain_defect.iter().filter(|d| d.is_none()).count()));
-
-    // every seam-B violation is re-run from an empty cache through the whole history before it is reported
-    for v in &rep.violations {
-        if v.replay["seam"] == "B" {
-            let Some(h) = seam_b::history_from_json(&pool_b, &v.replay["history"]) else {
-                rep.machinery_errors.push(format!("cannot parse own history for {}", v.key));
-                continue;
-            };
-            let (results, _) = seam_b::run_history(&pool_b, &wb.genesis_vkey_hex, &h);
-            if !results.last().is_some_and(|r| r.ok) {
-                rep.machinery_errors.push(format!("replay divergence: history for {} does not end in Ok when re-run from an empty cache", v.key));
-            }
-        }
-    }
 
     rep.states = Some(pool.members.len() as u64 + b_states);
     rep.transitions = Some(a_transitions + b_calls);
     rep.traces_validated = Some(a_transitions + b_calls);
     rep.sample(json!({"seam": "A", "pool_member_examples": (0..pool.members.len()).step_by((pool.members.len() / 5).max(1)).map(|i| pool.label(i)).collect::<Vec<_>>()}));
-    rep.sample(json!({"seam": "B", "pool": (0..pool_b.members.len()).map(|i| pool_b.label(i)).collect::<Vec<_>>()}));
+    rep.sample(json!({"seam": "B", "pool": (0..plans[0].1.members.len()).map(|i| plans[0].1.label(i)).collect::<Vec<_>>()}));
     rep.assume("certificate hash and protocol-message digest computation are trusted (subject of C04); STM aggregate-signature verification and Ed25519 are trusted (C01): the oracle calls them directly on each certificate");
     rep.assume("the universe is a finite pool: chains of at most 5 epochs, one adversarial key set, Concatenation proofs only (feature future_snark off)");
     rep.assume("seam A answers: all pool members claiming the requested hash, all base certificates and 'not found' for every row; the full pool for base rows (and, thorough, for re-targeted rows)");
     rep.assume("seam B cache states are re-created through the public store_validated_certificate API instead of replaying the history; every reported violation is re-run through its whole history from an empty cache");
     rep.assume("the property text is applied literally: a genesis certificate's own aggregate-key and parameter fields are not covered by the genesis signature and are not judged");
     rep.finish(ctx)
+}
+
+fn cpu_s() -> f64 {
+    // user+system CPU seconds of this process (wall time is meaningless on a shared machine)
+    let Ok(stat) = std::fs::read_to_string("/proc/self/stat") else { return 0.0 };
+    let after = stat.rsplit(')').next().unwrap_or("");
+    let f: Vec<&str> = after.split_whitespace().collect();
+    let ticks: f64 = f.get(11).and_then(|x| x.parse::<f64>().ok()).unwrap_or(0.0) + f.get(12).and_then(|x| x.parse::<f64>().ok()).unwrap_or(0.0);
+    ticks / 100.0
 }
 
 fn replay(ctx: &Ctx, mut rep: Report, v: &serde_json::Value, pool: &crate::pool::Pool, w: &World, pool_b: &seam_b::PoolB, wb: &World) -> ! {
